@@ -164,7 +164,7 @@ var longXPath = strings.Repeat("d/", 300) + "x"
 var manyOps = "a=1" + strings.Repeat(" and a=1", 100)
 
 var xpaths = []string{longXPath, manyOps, "%s" + strings.Repeat("/%s", 70) + "=1", "%s=1", "%s='a'", "%s!=2", "%s<3", "%s>=0", "%s", "%s=", "=%s", "%s==1", "%s='", "(%s=1", "%s=1)", "%s/x=1", "../%s=1", "%s[1]", "%s=1 and %s=2", "*", "/", "", "%s<'z'", "%s>true", "zz=1", "%s=99999999999999999999"}
-var queries = []string{"fields=" + strings.Repeat("a/", 300) + "b", "fields=" + strings.Repeat("a;", 300), "fc.xfields=" + strings.Repeat("(", 50), "depth=99999999999999999999", "fc.range=%s!1-99999999999999999999", "fc.max-node-count=99999999999999999999", "depth=%d", "depth=0", "depth=-1", "depth=x", "content=config", "content=nonconfig", "content=bogus", "fields=%s", "fields=%s;%s", "fields=%s/%s", "fields=(", "fields=%s(", "fields=;", "fc.xfields=%s", "fc.xfields=%s/x/y/z", "fc.range=%s!1-2", "fc.range=%s!-", "fc.range=!", "fc.range=%s!x-y", "fc.range=%s!2-1", "fc.range=zz!1-2", "fc.max-node-count=1", "fc.max-node-count=0", "fc.max-node-count=-5", "with-defaults=trim", "with-defaults=bogus", "depth=1&fields=%s", "where=%s%%3D1", "filter=%s", "%%zz", "a=b&&&=", "fields=%s/%s/%s/%s/%s"}
+var queries = []string{"fc.range=!-2", "fc.range=%s!-2", "fc.range=%s!-2-5", "fc.range=%s!5", "fc.range=%s!0-0", "fc.range=%s!3-", "fc.range=%s!-", "fc.range=%s!1--1", "fc.range=%s/%s!0-1", "depth=-2", "fc.max-node-count=-1", "fields=" + strings.Repeat("a/", 300) + "b", "fields=" + strings.Repeat("a;", 300), "fc.xfields=" + strings.Repeat("(", 50), "depth=99999999999999999999", "fc.range=%s!1-99999999999999999999", "fc.max-node-count=99999999999999999999", "depth=%d", "depth=0", "depth=-1", "depth=x", "content=config", "content=nonconfig", "content=bogus", "fields=%s", "fields=%s;%s", "fields=%s/%s", "fields=(", "fields=%s(", "fields=;", "fc.xfields=%s", "fc.xfields=%s/x/y/z", "fc.range=%s!1-2", "fc.range=%s!-", "fc.range=!", "fc.range=%s!x-y", "fc.range=%s!2-1", "fc.range=zz!1-2", "fc.max-node-count=1", "fc.max-node-count=0", "fc.max-node-count=-5", "with-defaults=trim", "with-defaults=bogus", "depth=1&fields=%s", "where=%s%%3D1", "filter=%s", "%%zz", "a=b&&&=", "fields=%s/%s/%s/%s/%s"}
 
 func c13Gen(r *kit.Rng, id string) *req.Session {
 	rich := r.Chance(1, 2)
